@@ -188,8 +188,8 @@ theorem C13_step_not_stuck (w : World) (op : Op) (h : w.dev.st.stuck = false) :
     · rfl
     · exact h
   | handleResponse m => exact h
-  | restoreDevice => exact h
-  | restoreReader => exact h
+  | restoreDevice => rw [step_restoreDevice]; exact h
+  | restoreReader => rw [step_restoreReader]; exact h
 
 theorem C13_never_stuck (s : Nat) (ops : List Op) : ((World.established s).run ops).dev.st.stuck = false := by
   have : ∀ (w : World), w.dev.st.stuck = false → (w.run ops).dev.st.stuck = false := by
@@ -274,8 +274,8 @@ theorem C13_refines_diagram (w : World) (op : Op) : Documented w.dev.st (w.step 
     | signing p s st => simp only [hs]; rw [← hs]; exact .refl _
     | ready m => simp only [hs]; exact .retrieve _
   | handleResponse m => exact .refl _
-  | restoreDevice => exact .refl _
-  | restoreReader => exact .refl _
+  | restoreDevice => rw [step_restoreDevice]; exact .refl _
+  | restoreReader => rw [step_restoreReader]; exact .refl _
 
 /-- non-vacuity: a two-document response signed in the offered order and retrieved once; an
 error response and an empty response retrievable at once. -/
